@@ -11,3 +11,7 @@ import PorepyVerif.C12.Props
 #print axioms PorepyVerif.C12.tpfa_exact_neumann
 #print axioms PorepyVerif.C12.tpfa_bound_pressure_exact_Korth
 #print axioms PorepyVerif.C12.tpfa_bound_pressure_dirichlet
+#print axioms PorepyVerif.C12.tpfa_hydrostatic_zero_flux
+#print axioms PorepyVerif.C12.tpfa_hydrostatic_bound_pressure
+#print axioms PorepyVerif.C12.tpfa_eq_mpfa_Korth
+#print axioms PorepyVerif.C12.tpfa_eq_mpfa_Korth_entries
